@@ -259,6 +259,28 @@ def coq_case(W, outcome, trace, fixed=True):
     return '(%s, %s, %s, %s)' % (clist([coq_comp(d) for d in W]), cbool(fixed), tbl, tr)
 
 
+def stage_state_violations(W, trace):
+    """Controller.stageState() (what the status reporter writes as the state of the stage / experiment): whenever a
+    component of the current stage is failed the stage is reported failed, and a stage whose loop ended without a
+    failed component is not"""
+    bad = []
+    for (ev, pre, post) in trace:
+        sst = post.get('stage_state')
+        cur = post['cur']
+        if sst is None or cur < 0:
+            continue
+        if isinstance(sst, str) and sst.startswith('error:'):
+            bad.append((ev, 'Controller.stageState() raised %s' % sst[6:]))
+            continue
+        mine = [c for c in range(len(post['comps'])) if c < len(W) and W[c]['stage'] == cur]
+        failed = [c for c in mine if post['comps'][c][0] == 'failed']
+        if failed and sst != 'failed':
+            bad.append((ev, 'component %d of the current stage is failed but the stage is reported as %s' % (failed[0], sst)))
+        if not failed and not post['running'] and post['verdict'] == 'ok' and sst == 'failed':
+            bad.append((ev, 'the stage ended without a failed component but is reported as failed'))
+    return bad
+
+
 # ------------------------------------------------------------------ C01 predicate on one trace
 def launch_violations(W, trace):
     """for every component whose run count becomes positive at an event, evaluate the property on the
